@@ -1152,9 +1152,8 @@ class Judge:
                 ctx.mismatch("C08/model-internal", dict(hist=hist[: i + 1]), None, dict(eq=eq, clean=clean))
                 return
             for k, (g_state, (present, chunked)) in enumerate(zip(st["state"], gs)):
-                has_areas = "areas" in groups(res["opened"][k]["present"])
-                real_p = sorted(GID[g] for g in groups(g_state["present"]) if not (g == "jac" and has_areas))
-                mod_p = sorted(p for p in present if not (p == GID["jac"] and has_areas))
+                real_p = sorted(GID[g] for g in groups(g_state["present"]))
+                mod_p = sorted(present)
                 real_c = sorted(GID[g] for g in groups(g_state["dask"]))
                 mod_c = sorted(c for c in chunked if c < GID["amIdx"])
                 if real_p != mod_p or real_c != mod_c:
